@@ -1,6 +1,6 @@
 NOTES = "All checks are static analyses of /repo's working tree at level 'other': each decides named structural necessary conditions of its property (see DESIGN.md section 4), never the behavioural statement itself."
 NOT_APPLICABLE = {}
-NOTE_COMMON = "Trusted base: go/packages + go/types + go/ssa (x/tools v0.50.0, go1.26.8 front end); the obligation tables in checker/internal/props; third-party libraries and user callbacks carry no obligations. Level 'other': structural necessary conditions of the property are decided on every path of the anchored functions; the behavioural statement itself (over histories/schedules/values) is not."
+NOTE_COMMON = "Trusted base: go/packages + go/types + go/ssa (x/tools v0.50.0, go1.26.8 front end); the obligation tables in checker/internal/props; the source-level normalisation pass (inlining of call-only local closures and of helper functions newer than the rules, rename aliasing, canonical names; the rewritten program is type-checked again); third-party libraries and user callbacks carry no obligations. Level 'other': structural necessary conditions of the property are decided on every path of the anchored functions; the behavioural statement itself (over histories/schedules/values) is not."
 CLAIMED = {}
 # property -> technique (the deciding method); level text comes from `nxcheck describe`
 TECH = {
